@@ -1,5 +1,6 @@
 /- line protocol for the `cl` (app) engine: the pool state machine -/
 import OsmoVerif.Model.CLPool
+import OsmoVerif.Model.CLPoolGenesis
 import OsmoVerif.Model.DrvCL
 namespace OsmoVerif.CLPool
 open OsmoVerif.CL
@@ -60,6 +61,9 @@ def stepCLPool (p : Pool) (op : String) (args : List String) : Pool × String :=
       | some a => (p, s!"ok {a}")
       | none => (p, "err")
     | _, _, _ => (p, "bad-op")
+  -- real ExportGenesis, CL store wiped, real InitGenesis (Model/CLPoolGenesis.lean)
+  | "exportimport", [] => (exportImport p, "ok")
+  | "nextid", [] => (p, s!"ok {p.nextId}")
   | "dump", [] => (p, dumpPool p)
   | _, _ => (p, "bad-op")
 
